@@ -316,9 +316,11 @@ def run_source(source, rep, record=True):
             if hops > ncomp:
                 raise Failure("C20:hops", f"get_minimum_hops() = {hops} but the goal is reached with only {ncomp} compromised hosts; "
                               f"episode {[repr(a) for a in seq]}; topology {spec.topology}, sensitive {list(spec.sensitive)}")
-        if len(spec.addrs) <= 4:
+        if len(spec.addrs) <= 6:
             # model-free oracle: the real environment's own state graph
-            vi = real_value_iteration(h, horizon=min(16, 4 * len(spec.addrs) + 2))
+            vi = real_value_iteration(h, horizon=min(18, 4 * len(spec.addrs) + 2), cap=1500)
+            if vi is None and record:
+                rep.count("real-value-iteration-capped-or-no-goal")
             if vi is not None:
                 best, seq, nst = vi
                 total, goal = replay_real(h, seq)
